@@ -539,7 +539,8 @@ LEVEL_TEXT = ('Machine-checked proof (Lean 4) over a model of InspectWrapper._pr
               'that is generic in the inspectors (arbitrary fault oracle, arbitrary complete/match answers, arbitrary '
               'iteration order); see the theorem list in lean/OsloProofs/Props/C06.lean (transparent pipe, containment '
               'of non-expected faults, an errored inspector is never fed again, cut-off exactly at the first failing or '
-              'complete-and-unmatched chunk of the expected inspector). The model is tied to the code by an exhaustive '
+              'complete-and-unmatched chunk of the expected inspector; without an expected format the pipe is total: every '
+              'chunk of every source is delivered and the stream ends normally, pipe_total_without_expected). The model is tied to the code by an exhaustive '
               'single-fault / sampled multi-fault differential correspondence with in-process fault injection.')
 LEVEL_NOTE = ('Trusted: Lean kernel; the hand model; the fault-injection harness (wraps bound eat_chunk / post_process and '
               'swaps in subclasses whose complete / format_match raise; exception types varied); which '
